@@ -1090,10 +1090,12 @@ def identity_corpus():
         if phase == 1:
             h.append({'restart': True})
         for k, u in enumerate(users):
-            for j in (k, (k + 1) % n, (k - 1) % n, (k + 6) % n):          # own key, the neighbours (prefix / variant), one far away
-                for kind in ('get', 'get_attributes'):
-                    h.append(st(u, [{'k': kind, 'uid': str(j + 1)}]))
-            h.append(st(u, [{'k': 'locate', 'type': None}]))
+            h.append(st(u, [{'k': 'get', 'uid': str(k + 1)}]))                        # own key
+            h.append(st(u, [{'k': 'get', 'uid': str((k + 1) % n + 1)}]))              # the next one (prefix / variant of this user)
+            if phase == 1:
+                h.append(st(u, [{'k': 'get', 'uid': str((k - 1) % n + 1)}]))
+                h.append(st(u, [{'k': 'get_attributes', 'uid': str((k + 1) % n + 1)}]))
+                h.append(st(u, [{'k': 'locate', 'type': None}]))
     for k, u in enumerate(users[:6]):
         h.append(st(users[(k + 1) % 6], [{'k': 'destroy', 'uid': str(k + 1)}]))
         h.append(st(u, [{'k': 'destroy', 'uid': str(k + 1)}]))
